@@ -32,7 +32,7 @@ ASSUMPTIONS = ["floats are exact rationals",
                "corner lemma (>= 4-vertex motifs only): a polynomial that is affine in each of p_1..p_m attains its maximum over [0,1]^m at a corner; hence "
                "corner inequalities f(e occupied) <= f(e unoccupied) give df/dp_e <= 0 on the cube and f(phi,..,phi) is non-increasing in phi",
                "the step obligations use the fields _phi/_H_tau and the method calculate_H_tau named in the property's anchors (skipped with a note if absent)"]
-EXPECTED_LABELS = ["step-identity", "sweep-covers-every-pair", "whole-run", "history", "zero-at-phi-0", "step-range", "step-monotone-in-message", "step-monotone-in-phi",
+EXPECTED_LABELS = ["step-identity", "whole-run", "history", "zero-at-phi-0", "step-range", "step-monotone-in-message", "step-monotone-in-phi",
                    "phi-monotone/diagonal", "phi-monotone/multilinear", "phi-monotone/edgewise"]
 VALIDATE_EVERY = 1
 TIME_LIMIT = {"quick": 900, "thorough": 3600}
@@ -250,8 +250,13 @@ def path(ctx, cfg):
                 return inner(focal, label)
             mp.calculate_H_tau = spy
             ctx.guard("run-raised", mp.theoretical, 0.37)
-            ctx.require(set(seen) == set(pairs), "sweep-covers-every-pair", f"{net}: one sweep updated {sorted(set(seen))}, expected {sorted(pairs)}",
-                        twin=(set(seen) == set(pairs[1:])))
+            if seen:
+                ctx.require(set(seen) == set(pairs), "sweep-covers-every-pair", f"{net}: one sweep updated {sorted(set(seen))}, expected {sorted(pairs)}",
+                            twin=(set(seen) == set(pairs[1:])))
+            else:
+                # the driver does not go through the public calculate_H_tau (inlined / split helpers): which pairs a sweep updates is then
+                # decided by the whole-run identities with 1 and 2 sweeps alone
+                ctx.note("sweep coverage not observable at calculate_H_tau (driver does not call it): left to the whole-run identity")
         mp2 = MessagePassing(G)
         z = ctx.guard("run-raised", mp2.theoretical, 0.0)
         ctx.require(close(z, 0.0), "zero-at-phi-0", f"{net}: theoretical(0) = {z}", twin=close(z, 1.0))
